@@ -13,7 +13,7 @@ from harness import pipeline as PP
 
 from symx import loader
 from symx.core import Sym, Ctx, symarray, qval, is_nan, free_vars
-from symx.report import fl, concretiser
+from symx.report import fl, concretiser, shaped_model
 from harness.C05 import xform, canon, term_in_space, sqrt_arg, call
 
 FUNCTIONS_Q = ["hvsr_azimuthal.HvsrAzimuthal._compute_statistical_weights", "hvsr_azimuthal.HvsrAzimuthal.mean_fn_frequency",
@@ -60,6 +60,10 @@ def instances(tier):
         if tier == "quick" and len(azs) == 3:
             continue
         out.append({"name": f"state_azimuths_{'_'.join(str(int(a)) for a in azs)}", "func": "run_state", "kwargs": {"naz": len(azs), "w": 2, "nf": 2, "dist": "lognormal", "azimuths": azs}})
+    # the covariance alone, on azimuths with different numbers of accepted windows (its off-diagonal is the only statistic
+    # that mixes frequency and amplitude: it must carry the same weights)
+    for dist in ("normal", "lognormal"):
+        out.append({"name": f"cov_unequal_counts_{dist}", "func": "run_cov_only", "kwargs": {"dist": dist}})
     # the same live object queried, its accept masks changed (possibly to the same counts), queried again
     for dist in ("normal", "lognormal"):
         out.append({"name": f"requery_after_mask_change_{dist}", "func": "run_requery", "kwargs": {"dist": dist}})
@@ -69,7 +73,7 @@ def instances(tier):
     return out
 
 
-def make_state(ctx, naz, w, nf, tag="", azimuths=None):
+def make_state(ctx, naz, w, nf, tag="", azimuths=None, fixed_status=None):
     HT = L()["hvsr_traditional"].HvsrTraditional
     HA = L()["hvsr_azimuthal"].HvsrAzimuthal
     frq = np.arange(1.0, nf + 1)
@@ -85,7 +89,7 @@ def make_state(ctx, naz, w, nf, tag="", azimuths=None):
         h._search_range_in_hz, h._find_peaks_kwargs = (None, None), {}
         st = []
         for i in range(w):
-            s = ["accepted", "rejected", "nopeak"][ctx.choose(3, tag=f"st{k}_{i}")]
+            s = ["accepted", "rejected", "nopeak"][ctx.choose(3, tag=f"st{k}_{i}")] if fixed_status is None else fixed_status[k][i]
             st.append(s)
             if s == "nopeak":
                 h._main_peak_frq[i] = h._main_peak_amp[i] = float("nan")
@@ -252,7 +256,7 @@ def run_state(rep, tier, naz, w, nf, dist, azimuths=None):
             continue
         rep.reachable(ctx)
         res = check(rep, ctx, az, status, dist)
-        r, m = ctx.model()
+        r, m = shaped_model(ctx)          # moderate log-amplitudes: the concrete side must not overflow
         if r == z3.sat and len(rep.validations) < 6:
             spec = wit(az, status, dist, "validate")(m)
             val = concretiser(m)
@@ -263,6 +267,25 @@ def run_state(rep, tier, naz, w, nf, dist, azimuths=None):
 
 
 STAT_CALLS = ("mean_fn_frequency", "std_fn_frequency", "mean_fn_amplitude", "std_fn_amplitude", "cov_fn", "mean_curve", "std_curve")
+
+
+def run_cov_only(rep, tier, dist):
+    fixed = [["accepted", "accepted", "accepted"], ["accepted", "rejected", "rejected"]]
+
+    def run(ctx):
+        return make_state(ctx, 2, 3, 2, fixed_status=fixed)
+
+    for ctx, (az, status) in rep.explore(run, max_paths=20):
+        rep.reachable(ctx)
+        W = wit(az, status, dist, "cov_fn")
+        sp = spec_stats(az, status, dist)
+        ok, cov = call(rep, ctx, "cov_fn", lambda: az.cov_fn(dist), W)
+        if not ok:
+            continue
+        shape = [z3.And(z3.Real(n) >= qval(-1) + qval(0.25) * ((j * 5) % 8), z3.Real(n) <= qval(-0.9) + qval(0.25) * ((j * 5) % 8)) for j, n in enumerate(sorted(free_vars(z3.And(*ctx.constraints()))) ) if n.startswith("ln_")]
+        rep.prove(ctx, f"cov_fn({dist}) off-diagonal = sum w (f - mean_f)(a - mean_a) / (1 - sum w^2) with the equal-azimuth weights (3 and 1 accepted windows)",
+                  [Sym.lift(cov[0, 1]) != sp["cov_fa"].e, Sym.lift(cov[1, 0]) != sp["cov_fa"].e], witness=W, key=f"cov-{dist}", shape=shape, timeout_ms=30000)
+        rep.sample({"status": status, "dist": dist})
 
 
 def run_requery(rep, tier, dist):
